@@ -3,11 +3,13 @@ package msgdrv
 import (
 	"fmt"
 	"reflect"
+	"strings"
 	"sync"
 	"unsafe"
 
 	"github.com/CrowdStrike/csproto"
 	gogoproto "github.com/gogo/protobuf/proto"
+	"google.golang.org/protobuf/encoding/protowire"
 	"google.golang.org/protobuf/proto"
 
 	"verif/harness/tr"
@@ -499,6 +501,64 @@ func (d *Driver) FamAlias(perType int) {
 			e.Eq = 0
 			if EqualAM(before, after) {
 				e.Eq = 1
+			}
+			d.emit(e)
+		}
+		// proto2 extensions with a length-delimited value (the abstract-message walkers do not see extensions): decoded by the generated
+		// Unmarshal, read through csproto.GetExtension before and after the caller's buffer is clobbered
+		for _, kind := range []string{"bytes", "string", "msg", "string@2", "msg@f"} {
+			x, ok := ti.Exts[kind]
+			if !ok {
+				continue
+			}
+			payload := []byte("extension-payload-" + kind)
+			if strings.HasPrefix(kind, "msg") {
+				payload = protowire.AppendBytes(protowire.AppendTag(nil, 2, protowire.BytesType), []byte("inner-string-"+kind)) // Leaf.s
+			}
+			b := protowire.AppendVarint(protowire.AppendTag(nil, 1, protowire.VarintType), 7)
+			b = protowire.AppendBytes(protowire.AppendTag(b, protowire.Number(extNumber[kind]), protowire.BytesType), payload)
+			e := &GEv{C: "alias", T: t, Key: ti.Key, Fl: ti.Flavour, Set: ti.Set, B: tr.Bytes(b), Lbl: "ext-" + kind + "/overwrite"}
+			if ti.Set == "unsafe" {
+				e.Mode = 1
+			}
+			in := append([]byte{}, b...)
+			dst := ti.New()
+			var err error
+			var before, after string
+			guard(&e.St, &e.Note, func() {
+				if err = dst.(unmarshaler).Unmarshal(in); err != nil {
+					return
+				}
+				v, gerr := csproto.GetExtension(dst, x)
+				if gerr != nil {
+					err = gerr
+					return
+				}
+				before = canon(ti.Flavour, v)
+				if bs, isBytes := v.([]byte); isBytes && len(bs) > 0 {
+					lo, p := uintptr(unsafe.Pointer(&in[0])), uintptr(unsafe.Pointer(&bs[0]))
+					if p >= lo && p < lo+uintptr(len(in)) {
+						e.Size = 1
+						e.Op = "bytes,"
+					}
+				}
+				for i := range in {
+					in[i] = 0xEE
+				}
+				v2, _ := csproto.GetExtension(dst, x)
+				after = canon(ti.Flavour, v2)
+			})
+			if e.St == "" {
+				e.St = errStatus(err)
+			}
+			if e.St != "ok" {
+				// the v1-API flavours cannot take scalar / string extensions through the generated Unmarshal (recorded finding of C12)
+				continue
+			}
+			e.M, e.Dyn = d.Project(ti, dst), d.Project(ti, dst)
+			e.Eq = b2i(before == after && before != "")
+			if e.Eq == 0 {
+				e.Note = "extension value before: " + before + " after: " + after
 			}
 			d.emit(e)
 		}
